@@ -402,7 +402,8 @@ SPECS["C19"] = dict(
          "oracle: the allowed errors per state, CountConnections -1 outside the running state, one result per accepted Register/Enroll call - also when it was accepted while the engine was shutting down - that is a usable connection (a byte echoes) or an error, runnables run once, Stop(nil) only when every opened connection has been closed and OnShutdown ran, Stop(expired) returns the context error and Run still returns, a second Stop reports in-shutdown; "
          "non-trivial = a case with calls issued between the shutdown request and its completion; distinct = distinct case",
     assumptions=ENGINE_ASSUME + ["Engine.Register is not combined with Round-Robin load balancing (documented data race)", "client handles report the empty-engine error by construction and are not exercised here"],
-    overlay=["verifx/c19"] + FX_OVERLAY,
+    overlay=["verifx/c19"] + FX_OVERLAY + SHIM_OVERLAY,
+    instrument=SHIM_INSTR,
     max_parallel=12,
     jobs=engine_jobs("c19", "./verifx/c19", [
         dict(id="control", run="^TestC19ControlAPI$", quick=dict(shards=8, checks=25, timeout=600, shrinktime=30), thorough=dict(shards=4, checks=2500, timeout=3400, shrinktime=300)),
